@@ -1257,6 +1257,17 @@ def nl_case(ctx, it, quick):
         Je = Jd @ e_
         sc = max(1.0, float(np.max(np.abs(Je))), float(np.max(np.abs(r))))
         if np.max(np.abs(fd - Je)) > 2e-5 * sc:
+            # is the difference quotient itself trustworthy here?  (integrands like exp(0.2 * grad^2) on tiny cells
+            # are so stiff that a step of 1e-6 leaves the region of validity: two step sizes then disagree)
+            try:
+                _, rp2 = assemble(x + eps / 16 * e_)
+                _, rm2 = assemble(x - eps / 16 * e_)
+                fd2 = -(rp2 - rm2) / (2 * eps / 16)
+                if (not np.all(np.isfinite(fd2))) or np.max(np.abs(fd2 - fd)) > 1e-3 * max(1.0, float(np.max(np.abs(fd2)))):
+                    ctx.count("nl:finite-differences-unreliable(skipped)")
+                    continue
+            except Exception:
+                pass
             k0 = int(np.argmax(np.abs(fd - Je)))
             ctx.violation("the matrix of NonlinearForm.assemble is not the derivative of the residual "
                           "(central finite differences of the assembled vector)",
@@ -1274,7 +1285,19 @@ def nl_case(ctx, it, quick):
             bm = lin.assemble(basis, **prev_kwargs(basis, x - ec), **params)
             Jfd[:, c] = (bp - bm) / (2 * eps)
         sc = max(sc_J, float(np.max(np.abs(b))))
+        unreliable = False
         if np.max(np.abs(Jfd - Jd)) > 2e-5 * sc:
+            i0 = np.unravel_index(np.argmax(np.abs(Jfd - Jd)), Jd.shape)
+            ec = np.zeros(N)
+            ec[int(i0[1])] = eps / 16
+            bp = lin.assemble(basis, **prev_kwargs(basis, x + ec), **params)
+            bm = lin.assemble(basis, **prev_kwargs(basis, x - ec), **params)
+            col2 = (bp - bm) / (2 * eps / 16)
+            unreliable = (not np.all(np.isfinite(col2))) or \
+                np.max(np.abs(col2 - Jfd[:, int(i0[1])])) > 1e-3 * max(1.0, float(np.max(np.abs(col2))))
+            if unreliable:
+                ctx.count("nl:finite-differences-unreliable(skipped)")
+        if np.max(np.abs(Jfd - Jd)) > 2e-5 * sc and not unreliable:
             i0 = np.unravel_index(np.argmax(np.abs(Jfd - Jd)), Jd.shape)
             ctx.violation("an entry of the autodiff matrix differs from the central difference of the residual",
                           dict(replay, entry=[int(i0[0]), int(i0[1])], autodiff=float(Jd[i0]), fd=float(Jfd[i0]),
@@ -1525,6 +1548,36 @@ def nl_reuse_checks(ctx):
                     break
 
 
+def nl_tiny_point_checks(ctx):
+    """a linearisation point of tiny magnitude (other units) is a point like any other: for an integrand that is
+    linear and homogeneous in the unknown the returned right-hand side is -A x, whatever the size of x"""
+    from skfem import Basis, MeshTri, MeshLine, ElementTriP1, ElementLineP2, BilinearForm
+    from skfem.autodiff import NonlinearForm
+    from skfem.autodiff.helpers import grad, dot
+
+    def integrand(u, v, w):
+        return dot(grad(u), grad(v)) + (1. + w.x[0]) * u * v
+    for m, E_ in ((MeshTri().refined(1), ElementTriP1), (MeshLine().refined(2), ElementLineP2)):
+        basis = Basis(m, E_())
+        A = BilinearForm(lambda u, v, w: sum(u.grad[i] * v.grad[i] for i in range(len(u.grad)))
+                         + (1. + w.x[0]) * u * v).assemble(basis)
+        pattern = np.linspace(0.5, 1.5, basis.N) * np.where(np.arange(basis.N) % 2, -1.0, 1.0)
+        for expo in (0, -20, -30, -40, -60, 30):
+            x = pattern * 2.0 ** expo
+            J, r = NonlinearForm(integrand).assemble(basis, x=x)
+            want = -(A @ x)
+            ctx.case({"nl-tiny-point": E_.__name__, "expo": expo}, nontrivial=True)
+            ctx.count("nl:point-of-tiny-magnitude")
+            err = float(np.abs(r - want).max() / np.abs(want).max())
+            errJ = float(np.abs(dense(J) - A.toarray()).max())
+            if err > 1e-10 or errJ > 1e-12:
+                ctx.violation("NonlinearForm at a linearisation point of magnitude 2^%d: the right-hand side of a linear "
+                              "homogeneous integrand is not -A x" % expo,
+                              {"element": E_.__name__, "magnitude": f"2^{expo}", "relative_error_rhs": err,
+                               "error_matrix": errJ}, {"what": "nl-tiny-point"})
+                break
+
+
 def nl_operator_checks(ctx):
     """arithmetic of a bare JaxDiscreteField (the objects u, v, w['name'] an integrand receives): every
     operator x operand kinds (field, Python number, NumPy scalar, NumPy array, jax array; both sides)
@@ -1666,6 +1719,10 @@ def run(ctx):
     log(f"[C20] gen-selfcheck done at {ctx.elapsed():.1f}s")
     # ---- 3. NonlinearForm
     nl_api_checks(ctx)
+    try:
+        nl_tiny_point_checks(ctx)
+    except Exception as ex:
+        ctx.violation("tiny linearisation point check raised " + exc_kind(ex), {"err": repr(ex)}, {"what": "nl-raise"})
     try:
         nl_reuse_checks(ctx)
     except Exception as ex:
